@@ -63,7 +63,7 @@ def gen_cases(rng, n, max_depth, **kw):
         r = H.gen_hierarchy(rng, max_depth=rng.randint(1, max_depth), **kw)
         if H.count_nodes(r) > 14:
             continue
-        out.append({"routine": r})
+        out.append({"routine": r, "native": rng.random() < 0.5})
     return out
 
 
